@@ -16,7 +16,7 @@ for f in os.listdir(src):
 log = open(f'{ROOT}/{ID}.confirm.log').read() if os.path.exists(f'{ROOT}/{ID}.confirm.log') else ''
 conf = [l for l in log.splitlines() if l.startswith('demo exit') or l.startswith('test result')]
 meta = {
-    'property': ID,
+    'property': ID[:3], 'seed_id': ID,
     'origin': 'independent sub-agent given only the property text and a scratch worktree of /repo (HEAD incl. hooks and fix commits)',
     'needs_to_manifest': needs,
     'confirmed_by_me': {
